@@ -7,7 +7,8 @@
 //	want   list of observations to make: "rt" (round trip + per-declaration print), "trivia"
 //	       (token tree and trivia index through the verif hook), "fmt" (format with every preset,
 //	       once and twice), "compile" (compile the original and every formatted text with the
-//	       stable compiler and compare descriptors without source code info)
+//	       stable compiler and compare descriptors without source code info), "bc" (with "fmt": the
+//	       block comments of every formatted text with the indentation of the line they start on)
 //	files  map path -> hex text of further files the source may import
 //	dirs   import directories on disk (for the repository's own testdata)
 //
@@ -106,22 +107,41 @@ func flatToks(path, text string) []any {
 }
 
 // leafTexts lists, in stream order, the texts of the leaves of the token tree of a text (real
-// lexer): non-skippable tokens, line comments, block comments.
+// lexer): non-skippable tokens, line comments, block comments.  A block comment is given relative to
+// the line it starts on: the white space that line begins with is removed from the front of every
+// further line of the comment that begins with it too (a formatted comment that only moved to
+// another indentation depth together with its line has the same relative text).
 func leafTexts(path, text string) (solid, lineC, blockC []string) {
 	file, _, _ := parse(path, text)
 	tree, _, _ := printer.VerifTriviaDump(file.Stream())
+	off := 0
 	var walk func(ts []printer.VerifTok)
 	walk = func(ts []printer.VerifTok) {
 		for _, t := range ts {
+			start := off
+			off += len(t.Text)
 			switch {
 			case t.Class >= 9:
 				solid = append(solid, t.Text)
 				walk(t.Children)
 				solid = append(solid, t.CloseText)
+				off += len(t.CloseText)
 			case t.Class == 2:
 				lineC = append(lineC, t.Text)
 			case t.Class == 3:
-				blockC = append(blockC, t.Text)
+				rel := t.Text
+				if start <= len(text) && strings.HasPrefix(text[start:], t.Text) {
+					line := text[strings.LastIndex(text[:start], "\n")+1 : start]
+					lead := line[:len(line)-len(strings.TrimLeft(line, " \t"))]
+					if lead != "" {
+						ls := strings.Split(t.Text, "\n")
+						for i := 1; i < len(ls); i++ {
+							ls[i] = strings.TrimPrefix(ls[i], lead)
+						}
+						rel = strings.Join(ls, "\n")
+					}
+				}
+				blockC = append(blockC, rel)
 			case t.Class > 4:
 				solid = append(solid, t.Text)
 			}
@@ -131,12 +151,39 @@ func leafTexts(path, text string) (solid, lineC, blockC []string) {
 	return solid, lineC, blockC
 }
 
+// blockComments lists the block comments of a text in stream order: [hex of the token text, hex of
+// the white space that the line the comment starts on begins with, number of bracket pairs around
+// the comment].
+func blockComments(text string, tree []printer.VerifTok) []any {
+	out := []any{}
+	off := 0
+	var walk func(ts []printer.VerifTok, depth int)
+	walk = func(ts []printer.VerifTok, depth int) {
+		for _, t := range ts {
+			start := off
+			off += len(t.Text)
+			if t.Class >= 9 {
+				walk(t.Children, depth+1)
+				off += len(t.CloseText)
+			}
+			if t.Class == 3 && start <= len(text) && strings.HasPrefix(text[start:], t.Text) {
+				line := text[strings.LastIndex(text[:start], "\n")+1 : start]
+				lead := line[:len(line)-len(strings.TrimLeft(line, " \t"))]
+				out = append(out, []any{vhlib.Hx([]byte(t.Text)), vhlib.Hx([]byte(lead)), depth})
+			}
+		}
+	}
+	walk(tree, 0)
+	return out
+}
+
 // idemDiff says WHAT a second formatting pass changed (first match): "tokens" the sequence of
 // non-skippable tokens, "line-comment" the sequence of `//` comment texts, "block-comment-text" the
-// multiset of block comment texts (byte for byte, interior indentation included: some comment is
-// printed differently by the second pass), "comment-order" the same block comments in another
-// order, "layout" only the white space between tokens and comments.  With "block-comment-text"
-// the first comment of each pass that the other pass does not have is returned as well.
+// multiset of block comment texts (byte for byte, interior white space included, relative to the
+// indentation of the line the comment starts on: some comment is printed differently by the second
+// pass), "comment-order" the same block comments in another order, "layout" only the white space
+// between tokens and comments.  With "block-comment-text" the first comment of each pass that the
+// other pass does not have is returned as well.
 func idemDiff(path, f1, f2 string) map[string]any {
 	s1, l1, b1 := leafTexts(path, f1)
 	s2, l2, b2 := leafTexts(path, f2)
@@ -509,6 +556,9 @@ func printerCase(in map[string]any) map[string]any {
 				r["err_2"] = err.Error()
 			}
 			r["f2"] = vhlib.Hx([]byte(f2))
+			if has("bc") {
+				r["bcs"] = blockComments(f1, tree1)
+			}
 			if f2 != f1 {
 				r["idem"] = idemDiff(path, f1, f2)
 			}
